@@ -9,10 +9,10 @@ CONSTANTS
   MaxClosed = 4
   MaxBal = 0
   MaxVals = 0
-  Gaps <- GapsQuick
+  Gaps <- GapsThorough
   RFs <- RFsQuick
   Ivs = {"Daily", "Annual365", "Hours2"}
-INVARIANTS TypeC16 AccSheet RatioLaws
+INVARIANTS TypeC16 AccSheet AccReturns RatioLaws TimeFreeC16
 PROPERTIES ResetIsFresh
 CHECK_DEADLOCK FALSE
 VIEW View
